@@ -458,10 +458,16 @@ fn error_plan(code: u16, good_body: &[u8]) -> Plan {
 }
 
 fn draw_plan_for(body: &[u8], allow_stall: bool) -> (Plan, &'static str) {
-    let kind = ch("e3.srv.kind", 12);
+    let kind = ch("e3.srv.kind", 13);
     let mut label = "200 full";
     let mut plan = match kind {
         0..=4 => Plan::ok(body.to_vec()),
+        12 => {
+            // a success status with nothing in it (200 / 204 with a zero-length body)
+            label = "empty 2xx";
+            simkit::probe("e3.empty_success_body");
+            Plan::status([200u16, 204][ch("e3.srv.empty_code", 2) as usize])
+        }
         5 => {
             label = "404";
             error_plan(404, body)
